@@ -39,6 +39,23 @@ def main():
     out.append("")
     out.append("Seeded changes (written by independent sub-agents from the property text only; `seeded/<id>/`):")
     out.append("")
+    metas = [(os.path.basename(os.path.dirname(p)), json.load(open(p))) for p in sorted(glob.glob(os.path.join(VERIF, "seeded", "*", "meta.json")))]
+    n = len(metas)
+    missed_first = [k for k, m in metas if "miss" in str(m.get("first_attempt", "")).lower() or "MISSED" in m.get("detected_by", "")]
+    nofail_first = [k for k, m in metas if "no-failing-input" in str(m.get("first_attempt", ""))]
+    final_missed = [k for k, m in metas if m.get("final") == "missed"]
+    pending = [k for k, m in metas if m.get("detected_by", "").startswith("pending")]
+    benign = [k for k, m in metas if m.get("after_fix_round")]
+    other_prop = [k for k, m in metas if m.get("detected_by", "") and not m["detected_by"].startswith(m.get("property", "?") + " ") and k not in final_missed and k not in pending]
+    out.append(f"Summary: {n} seeded changes in three rounds (A/B: round 1, C/D: round 2 written against the tree after the fix rounds "
+               f"with the round-1 mechanisms excluded, E/F: round 3 with rounds 1-2 excluded). Detected by the committed checks: "
+               f"{n - len(final_missed) - len(pending)}; of these {len(missed_first)} were MISSED by the first attempt and caught only after the "
+               f"check was strengthened ({', '.join(missed_first)}), {len(nofail_first)} were first reported without a failing input "
+               f"({', '.join(nofail_first)}), {len(other_prop)} are caught by the check of a neighbouring property rather than the one they were "
+               f"written for ({', '.join(other_prop)}). Not detected: {', '.join(final_missed) or 'none'}"
+               + (f"; not yet re-tested: {', '.join(pending)}" if pending else "")
+               + (f". {', '.join(benign)}: the change became harmless when a fix repaired the cooperating defect." if benign else "."))
+    out.append("")
     out.append("| seed | breaks | needs | caught by |")
     out.append("|---|---|---|---|")
     for p in sorted(glob.glob(os.path.join(VERIF, "seeded", "*", "meta.json"))):
